@@ -180,6 +180,19 @@ def rule_b(repo, chk):
                 return {t.attr: norm(a.value) for a in stmts_in(fn, ast.Assign) for t in a.targets
                         if isinstance(t, ast.Attribute) and isinstance(t.value, ast.Name) and t.value.id == 'self'}
             ini, rst = sets(c.methods['__init__']), sets(c.methods[calls[0].func.attr])
+            # `del self.x[:]` / `self.x.clear()` restore an empty container
+            for n_ in own_nodes(c.methods[calls[0].func.attr]):
+                fld = None
+                if isinstance(n_, ast.Delete):
+                    for t in n_.targets:
+                        if isinstance(t, ast.Subscript) and isinstance(t.slice, ast.Slice) and t.slice.lower is None and t.slice.upper is None \
+                                and isinstance(t.value, ast.Attribute) and norm(t.value.value) == 'self':
+                            fld = t.value.attr
+                elif isinstance(n_, ast.Call) and isinstance(n_.func, ast.Attribute) and n_.func.attr == 'clear' and not n_.args \
+                        and isinstance(n_.func.value, ast.Attribute) and norm(n_.func.value.value) == 'self':
+                    fld = n_.func.value.attr
+                if fld is not None and ini.get(fld) in ('[]', '{}', 'set()', 'dict()', 'list()'):
+                    rst[fld] = ini[fld]
             pr = set(params(c.methods['__init__']))
             missing = sorted(k for k, v in ini.items() if rst.get(k) != v and not (v in pr))
         chk.ob('C16.b', missing == [], calls[0] if calls else r,
